@@ -50,9 +50,13 @@ def build(rng, cfg, spec, trace, fail_at=None):
         opt = pp.optim.GN(model, solver=solver, kernel=kernels, corrector=correctors, vectorize=cfg["vectorize"])
     else:
         st = pp.optim.strategy
+        tight = cfg.get("tight_bounds", False)       # bounds close enough to bind within a few trials
+        hp = cfg.get("hyper", {})
         strat = {"Constant": lambda: st.Constant(damping=cfg["damping"]),
-                 "Adaptive": lambda: st.Adaptive(damping=cfg["damping"], min=cfg["damping"] * 1e-3, max=1e16),
-                 "TrustRegion": lambda: st.TrustRegion(radius=1 / cfg["damping"], min=1e-12, max=1e16)}[cfg["strategy"]]()
+                 "Adaptive": lambda: st.Adaptive(damping=cfg["damping"], min=cfg["damping"] * (0.3 if tight else 1e-3),
+                                                 max=cfg["damping"] * 5 if tight else 1e16, **hp),
+                 "TrustRegion": lambda: st.TrustRegion(radius=1 / cfg["damping"], min=(0.3 / cfg["damping"]) if tight else 1e-12,
+                                                       max=(5 / cfg["damping"]) if tight else 1e16, **hp)}[cfg["strategy"]]()
         opt = pp.optim.LM(model, solver=solver, strategy=optspy.SpyStrategy(strat, trace), kernel=kernels, corrector=correctors,
                           reject=cfg["reject"], min=cfg["min"], max=cfg["max"], vectorize=cfg["vectorize"])
     optref[0] = opt
@@ -72,6 +76,9 @@ def config(rng, opt=None):
         cfg["strategy"] = ["Constant", "Adaptive", "TrustRegion"][int(rng.integers(3))]
         cfg["damping"] = float(10.0 ** rng.uniform(-9, 3))
         cfg["reject"] = int(rng.integers(0, 17))
+        cfg["tight_bounds"] = bool(rng.integers(2))
+        cfg["hyper"] = {} if rng.random() < 0.4 else {"high": float(rng.uniform(0.3, 0.9)), "low": float(10.0 ** rng.uniform(-4, -1)),
+                                                        "up": float(rng.uniform(1.5, 10)), "down": float(rng.uniform(0.1, 0.8))}
         clamp = int(rng.integers(3))
         cfg["min"], cfg["max"] = [(1e-6, 1e32), (float(10.0 ** rng.uniform(-1, 1)), 1e32), (1e-6, float(10.0 ** rng.uniform(-2, 0)))][clamp]
         cfg["clamp"] = ["default", "min_binds", "max_binds"][clamp]
